@@ -77,6 +77,80 @@ thread_local! {
     static TRACK: Cell<u32> = const { Cell::new(0) };
 }
 
+// ---- event log (spec/Modules.tla): what this module's allocator was asked to do, in the order of a clock that can
+// be shared with the allocator of another module of the same process ----
+pub const EV_ALLOC: u8 = 1;
+pub const EV_FREE: u8 = 2;
+pub const EV_UNKNOWN_FREE: u8 = 3;
+pub const EV_DOUBLE_FREE: u8 = 4;
+pub const EV_MISMATCH: u8 = 5;
+pub const EV_MARK: u8 = 9;
+#[repr(C)]
+#[derive(Clone, Copy, Debug)]
+pub struct Ev {
+    pub seq: u64,
+    pub kind: u8,
+    pub ptr: usize,
+    pub size: usize,
+    pub serial: u64,
+}
+const EVCAP: usize = 1 << 17;
+static mut EVS: [Ev; EVCAP] = [Ev { seq: 0, kind: 0, ptr: 0, size: 0, serial: 0 }; EVCAP];
+static N_EV: AtomicUsize = AtomicUsize::new(0);
+static EV_ON: AtomicBool = AtomicBool::new(false);
+static OWN_CLOCK: AtomicU64 = AtomicU64::new(1);
+static CLOCK: AtomicUsize = AtomicUsize::new(0);
+
+fn ev(kind: u8, ptr: usize, size: usize, serial: u64) {
+    if !EV_ON.load(Relaxed) {
+        return;
+    }
+    let c = CLOCK.load(Relaxed);
+    let clock: &AtomicU64 = if c == 0 { &OWN_CLOCK } else { unsafe { &*(c as *const AtomicU64) } };
+    let seq = clock.fetch_add(1, SeqCst);
+    let i = N_EV.fetch_add(1, SeqCst);
+    if i < EVCAP {
+        unsafe { EVS[i] = Ev { seq, kind, ptr, size, serial } };
+    }
+}
+/// Start / stop recording; `clock` = 0 for this module's own clock, or the address of another module's.
+pub fn events(on: bool, clock: usize) {
+    CLOCK.store(clock, SeqCst);
+    N_EV.store(0, SeqCst);
+    EV_ON.store(on, SeqCst);
+}
+/// Copy the recorded events out and start an empty log (recording stays on).  Call at a point where no other thread allocates.
+pub fn drain_events(out: *mut Ev, cap: usize) -> usize {
+    let on = EV_ON.swap(false, SeqCst);
+    let k = copy_events(out, cap);
+    N_EV.store(0, SeqCst);
+    EV_ON.store(on, SeqCst);
+    k
+}
+/// Stop recording, keep what was recorded.
+pub fn events_pause() {
+    EV_ON.store(false, SeqCst);
+}
+pub fn clock_addr() -> usize {
+    &OWN_CLOCK as *const AtomicU64 as usize
+}
+pub fn mark(code: usize) {
+    ev(EV_MARK, code, 0, 0);
+}
+/// Copies the recorded events out (into caller-provided storage: usable across a module boundary); `usize::MAX` when
+/// the log overflowed.
+pub fn copy_events(out: *mut Ev, cap: usize) -> usize {
+    let n = N_EV.load(SeqCst);
+    if n > EVCAP {
+        return usize::MAX;
+    }
+    let k = n.min(cap);
+    for i in 0..k {
+        unsafe { *out.add(i) = EVS[i] };
+    }
+    k
+}
+
 /// Track all threads regardless of the thread-local flag (used by multi-threaded drivers that
 /// cannot wrap every op).
 static TRACK_ALL: AtomicBool = AtomicBool::new(false);
@@ -190,6 +264,7 @@ unsafe impl GlobalAlloc for Ledger {
             LIVE.fetch_add(1, SeqCst);
             LIVE_BYTES.fetch_add(layout.size(), SeqCst);
             TRACKED_ALLOCS.fetch_add(1, SeqCst);
+            ev(EV_ALLOC, p as usize, layout.size(), e.serial);
         }
         p
     }
@@ -218,6 +293,7 @@ unsafe impl GlobalAlloc for Ledger {
             None => {
                 unlock();
                 anomaly(1, p as usize, layout.size(), layout.align());
+                ev(EV_UNKNOWN_FREE, p as usize, layout.size(), 0);
                 return; // never forward garbage to the system allocator
             }
             Some(i) => i,
@@ -226,6 +302,7 @@ unsafe impl GlobalAlloc for Ledger {
         if e.freed {
             unlock();
             anomaly(2, p as usize, layout.size(), e.size);
+            ev(EV_DOUBLE_FREE, p as usize, layout.size(), e.serial);
             return;
         }
         let mismatch = e.size != layout.size() || e.align as usize != layout.align();
@@ -279,6 +356,9 @@ unsafe impl GlobalAlloc for Ledger {
         unlock();
         if mismatch {
             anomaly(3, p as usize, layout.size(), e.size);
+            if e.tracked {
+                ev(EV_MISMATCH, p as usize, layout.size(), e.serial);
+            }
         }
         if !guard_ok {
             anomaly(4, p as usize, e.size, 0);
@@ -287,6 +367,7 @@ unsafe impl GlobalAlloc for Ledger {
             LIVE.fetch_sub(1, SeqCst);
             LIVE_BYTES.fetch_sub(e.size, SeqCst);
             TRACKED_FREES.fetch_add(1, SeqCst);
+            ev(EV_FREE, p as usize, e.size, e.serial);
         }
         for k in 0..n_ev {
             let (op, os, oa) = evicted[k];
